@@ -83,7 +83,11 @@ impl<F: Float> Transformer<Array2<F>, Array2<F>> for NormScaler {
         Zip::from(x.rows_mut())
             .and(&norms)
             .for_each(|mut row, &norm| {
-                row.mapv_inplace(|el| el / norm);
+                // a row of norm zero (all zeros, or entries so small that the norm underflows) has no
+                // direction to normalise: leave it as it is instead of dividing by zero
+                if norm > F::zero() {
+                    row.mapv_inplace(|el| el / norm);
+                }
             });
         x
     }
